@@ -30,7 +30,8 @@ HELPERS = """
             assert!(row.as_ptr() == want);
             n += 1;
         }
-        assert!(n == h.saturating_sub(s));
+        // a zero-width view has no pixels: it may produce no rows at all
+        assert!(n == h.saturating_sub(s) || (w == 0 && n == 0));
     }
 
     fn check_rows_mut<V: ImageViewMut>(view: &mut V, s: u32, base: *const V::Pixel, stride: usize, left: usize, top: usize, w: u32, h: u32) {
@@ -42,7 +43,7 @@ HELPERS = """
             assert!(row.as_ptr() == want);
             n += 1;
         }
-        assert!(n == h.saturating_sub(s));
+        assert!(n == h.saturating_sub(s) || (w == 0 && n == 0));
     }
 """
 
@@ -98,7 +99,7 @@ def crop_harness(pw, ph):
 """ % dict(pw=pw, ph=ph, n=n, u=ph + 3)
 
 
-def split_harness(kind, w, h, size, parts):
+def split_harness(kind, w, h, size, parts, cstart=None):
     """kind in: ref_h, typed_h, typed_h_mut, typed_w, typed_w_mut, cropped_h, cropped_w_mut"""
     by_h = "_h" in kind
     dim = h if by_h else w
@@ -106,11 +107,10 @@ def split_harness(kind, w, h, size, parts):
     body = []
     # expected bands
     if kind.startswith("cropped"):
-        pw, ph = w + 2, h + 2
+        pw, ph = w + 3, h + 3
         setup = """        let mut buf = [U8::new(0); %d];
         let base = buf.as_ptr();
-        let (cl, ct): (u32, u32) = (kani::any(), kani::any());
-        kani::assume(cl <= 2 && ct <= 2);
+        let (cl, ct): (u32, u32) = (1, 2);   // concrete (a symbolic crop origin exhausts memory, DESIGN 9) and asymmetric (left != top)
 """ % (pw * ph)
         stride = pw
         mk_ref = "let parent = TypedImageRef::new(%d, %d, &buf).unwrap(); let img = TypedCroppedImage::from_ref(&parent, cl, ct, %d, %d).unwrap();" % (pw, ph, w, h)
@@ -132,14 +132,13 @@ def split_harness(kind, w, h, size, parts):
     return """
     #[kani::proof]
     #[kani::unwind(%(u)d)]
-    fn g5b_%(kind)s_%(w)dx%(h)d_s%(size)d_p%(parts)d() {
-%(setup)s        let start: u32 = kani::any();
-        kani::assume(start <= %(dim)d);
+    fn g5b_%(kind)s_%(w)dx%(h)d_s%(size)d_p%(parts)d%(sfx)s() {
+%(setup)s        %(startdecl)s
         %(mk)s
         let r = img.%(call)s(start, NonZeroU32::new(%(size)d).unwrap(), NonZeroU32::new(%(parts)d).unwrap());
         let should = %(parts)d <= %(size)d && %(size)d <= %(dim)d && start <= %(dim)d - %(size)d;
         assert!(r.is_some() == should);
-        kani::cover!(r.is_some());
+        %(cover)s
         if let Some(mut parts) = r {
             assert!(parts.len() == %(parts)d);
             let mut pos: usize = start as usize;
@@ -155,6 +154,9 @@ def split_harness(kind, w, h, size, parts):
     }
 """ % dict(kind=kind, w=w, h=h, size=size, parts=parts, setup=setup, dim=dim, mk=mk_mut if mutable else mk_ref, call=call,
            it=it, step=step, mod=mod, u=max(w, h) + parts + 4,
+           cover="kani::cover!(r.is_some());" if (parts <= size <= dim and (cstart is None or cstart <= dim - size)) else "",
+           startdecl=("let start: u32 = kani::any();\n        kani::assume(start <= %d);" % dim) if cstart is None else ("let start: u32 = %d;" % cstart),
+           sfx="" if cstart is None else "_at%d" % cstart,
            check=("%s, 0, base, %d, %s, %s + pos, %d, len);" % (chk, stride, off_l, off_t, w)) if by_h else
                  ("%s, 0, base, %d, %s + pos, %s, len, %d);" % (chk, stride, off_l, off_t, h)))
 
@@ -164,10 +166,20 @@ CROPS = [(3, 3)]
 SPLITS_Q = [("ref_h", 2, 3, 3, 2), ("typed_h", 2, 3, 2, 2), ("typed_h_mut", 2, 3, 3, 2), ("typed_w", 3, 2, 3, 2),
             ("typed_w_mut", 3, 2, 2, 1), ("cropped_h", 2, 3, 3, 2), ("cropped_w_mut", 3, 2, 3, 2), ("cropped_h_mut", 2, 3, 2, 2),
             ("cropped_w", 3, 2, 2, 2), ("ref_h", 2, 3, 2, 3), ("typed_w", 3, 2, 4, 1)]
+def _combos(dim):
+    res = []
+    for size in sorted({1, dim - 1, dim}):
+        for parts in sorted({1, 2, size}):
+            if size >= 1 and parts >= 1:
+                res.append((size, parts))
+    return res
+
+
 SPLITS_T = [(k, w, h, size, parts) for k in ("ref_h", "typed_h", "typed_h_mut", "cropped_h", "cropped_h_mut")
-            for (w, h) in ((2, 4), (1, 5)) for size in range(1, h + 1) for parts in range(1, size + 1)] + \
+            for (w, h) in ((2, 4),) for (size, parts) in _combos(h)] + \
            [(k, w, h, size, parts) for k in ("typed_w", "typed_w_mut", "cropped_w", "cropped_w_mut")
-            for (w, h) in ((4, 2), (5, 1)) for size in range(1, w + 1) for parts in range(1, size + 1)]
+            for (w, h) in ((4, 2),) for (size, parts) in _combos(w)] + \
+           [("ref_h", 1, 5, 5, 3), ("typed_h_mut", 1, 5, 4, 3), ("typed_w_mut", 5, 1, 5, 4), ("typed_w", 5, 1, 3, 2)]
 
 code = HELPERS + "".join(rows_harness(*r) for r in ROWS) + "".join(crop_harness(*c) for c in CROPS)
 seen = set()
@@ -182,13 +194,17 @@ for (pw, ph) in CROPS:
                    claim="TypedCroppedImage / TypedCroppedImageMut (and a nested crop) expose exactly their rectangle of the parent, by address"))
 for tier, lst in (("quick", SPLITS_Q), ("thorough", SPLITS_T)):
     for sp in lst:
-        nm = "g5b_%s_%dx%d_s%d_p%d" % sp
-        if nm in seen:
+        dim_ = sp[2] if "_h" in sp[0] else sp[1]
+        starts = [None] if not sp[0].startswith("cropped") else sorted({0, max(dim_ - sp[3], 0), max(dim_ - sp[3], 0) + 1})
+        for cs in starts:
+          nm = "g5b_%s_%dx%d_s%d_p%d" % sp + ("" if cs is None else "_at%d" % cs)
+          if nm in seen:
             continue
-        seen.add(nm)
-        code += split_harness(*sp)
-        hs.append(dict(name=nm, kind="bounded", timeout=900, tier=tier, covers=0, props=["C14", "C08", "C03"],
-                       bound="view %dx%d, band size %d, %d parts (concrete); symbolic start%s" % (sp[1], sp[2], sp[3], sp[4], ", symbolic crop origin in a parent with a 2-pixel margin" if sp[0].startswith("cropped") else ""),
+          seen.add(nm)
+          code += split_harness(*sp, cstart=cs)
+          valid = sp[4] <= sp[3] <= dim_ and (cs is None or cs <= dim_ - sp[3])
+          hs.append(dict(name=nm, kind="bounded", timeout=900, tier=tier, covers=1 if valid else 0, props=["C14", "C08", "C03"],
+                       bound="view %dx%d, band size %d, %d parts (concrete); %s%s" % (sp[1], sp[2], sp[3], sp[4], "symbolic start" if cs is None else "start %d (concrete: the cropped compositions exhaust memory with a symbolic start)" % cs, ", view cropped at (left 1, top 2) out of a parent 3 pixels larger in both dimensions" if sp[0].startswith("cropped") else ""),
                        claim="%s: None iff the documented condition; else the parts are, by address and length, the consecutive bands of the parent" % sp[0]))
 
 UNIT = dict(
